@@ -88,6 +88,8 @@ from .interp import GenV, IterV, GenCM, AbsRaise, PathAbort  # noqa: E402
 # ------------------------------------------------------------------ builtins
 def b_len(I, fv, args, kwargs, node):
     v = I.force(args[0])
+    if isinstance(v, BV):
+        return Num(I.bv_len(v.parts), True)
     items = _list_items(I, v)
     if items is not None:
         return Const(len(items))
@@ -921,7 +923,51 @@ def call_bound_builtin(I, bb: BoundBuiltin, args, kwargs, node):
         if name in ("strip", "rstrip", "lstrip"):
             return Bytes(Str((StrOf(recv.s, name),)), recv.enc)
         return Unk(f"{I.tag(recv)}.{name}()")
+    if isinstance(recv, BV):
+        if name == "find" and args:
+            t = I.as_bv(I.force(args[0]))
+            if t is not None and t.parts == (BNL(),):
+                for i, x in enumerate(recv.parts):
+                    if isinstance(x, BNL):
+                        return Num(I.bv_len(recv.parts[:i]), True)
+                return Const(-1)
+        if name in ("index",) and args:
+            t = I.as_bv(I.force(args[0]))
+            if t is not None and t.parts == (BNL(),):
+                for i, x in enumerate(recv.parts):
+                    if isinstance(x, BNL):
+                        return Num(I.bv_len(recv.parts[:i]), True)
+                I.raise_("ValueError", node, note="subsection not found")
+        if name == "endswith" and args:
+            t = I.as_bv(I.force(args[0]))
+            if t is not None and t.parts == (BNL(),):
+                return Const(bool(recv.parts) and isinstance(recv.parts[-1], BNL))
+        if name == "count" and args:
+            t = I.as_bv(I.force(args[0]))
+            if t is not None and t.parts == (BNL(),):
+                return Const(sum(1 for x in recv.parts if isinstance(x, BNL)))
+        if name in ("partition", "split", "splitlines"):
+            t = I.as_bv(I.force(args[0])) if args else BV((BNL(),))
+            if t is not None and t.parts == (BNL(),) and name == "partition":
+                for i, x in enumerate(recv.parts):
+                    if isinstance(x, BNL):
+                        return Tup((BV(recv.parts[:i]), BV((BNL(),)), BV(recv.parts[i + 1:])))
+                return Tup((recv, BV(()), BV(())))
+        return Unk(I.fresh(f"{recv!r}.{name}()"), "bytes")
     if isinstance(recv, Const) and isinstance(recv.v, bytes):
+        if name == "join" and args and recv.v == b"":
+            items = _list_items(I, args[0])
+            if items is not None:
+                parts = ()
+                ok = True
+                for x in items:
+                    bx = I.as_bv(I.force(x))
+                    if bx is None:
+                        ok = False
+                        break
+                    parts += bx.parts
+                if ok:
+                    return BV(parts) if (parts or any(isinstance(I.force(x), BV) for x in items)) else Const(b"")
         if name == "decode":
             try:
                 return Const(recv.v.decode(I.strval(args[0]) if args else "utf-8"))
